@@ -247,4 +247,20 @@ PROPS = {
         trusted_base=[],
         technique="bounded run-time stand-in (generated HTML snippets, directive-spelling equivalence) - no contract discharged for html_to_nodes yet",
     ),
+    "C04": dict(
+        level="exploration",
+        contracts=[],
+        harness=True,
+        explanation=(
+            "BOUNDED ONLY so far (the line-arithmetic chain token_line -> _render_tokens -> nested_render_text -> "
+            "MockState.nested_parse is not yet under contract): generated documents whose generator knows the first line of "
+            "every construct (paragraph, heading, list item, code block, raw HTML, table) nested up to depth 3 in block "
+            "quotes, lists, backtick and colon directives with no / ':'-style / '---'-style option blocks and optional blank "
+            "line before the body; warning lines of roles planted at known lines; included files (line relative to the "
+            "file, source path = the file, host lines unaffected); substitution."
+        ),
+        assumptions=["markdown-it-py token.map is the 0-based line range of the token in the text it was given"],
+        trusted_base=[],
+        technique="bounded run-time stand-in (generator with ground-truth line numbers) - no contract discharged yet",
+    ),
 }
